@@ -8,6 +8,7 @@ HARNESSES = {
     'c17': dict(flavour='asan', srcs=['c17.cpp']),
     'c04': dict(flavour='asan', srcs=['c04.cpp']),
     'c15': dict(flavour='asan', srcs=['c15.cpp']),
+    'c09': dict(flavour='asan', srcs=['c09.cpp']),
 }
 
 PROPS = {
@@ -125,6 +126,22 @@ PROPS = {
              'SimWorld values and the previous observation (tolerances in DESIGN.md §C15). Non-trivial = non-zero memory '
              'protection at two nested levels (depth >=3) or a re-creation; distinct by scenario hash.',
         assumptions=['temporal recurrences are checked one step at a time against the previous observed value'],
+    ),
+    'C09': dict(
+        harness='c09', level='exploration',
+        quick=dict(shards=8, n=600, size=100),
+        thorough=dict(shards=16, n=25000, size=100),
+        rule='rapidcheck-generated sibling sets (2-8 populated siblings of equal preference under one parent, '
+             'non-recursive) with usage / protection / swap / PSI / io.stat / pgscan statistics (small, up to 2^58 with '
+             'the host sum below 2^62, exact ties, zeros), MemTotal and SwapTotal above 2^31 and 2^32 bytes, 1-4 tick '
+             'histories for the rate based plugins, and every ranking parameter (size_threshold, '
+             'growing_size_percentile, fractional min_growth_ratio, swap threshold as %, bare MB or K/M/G/T sizes with '
+             'an exact byte value computed by the generator, biased_swap_kill, resource). Oracle: RankModel acceptable '
+             'set (rankmodel.h) vs the first cgroup the real plugin attempts. Non-trivial = >=3 siblings and the '
+             'acceptable set is a strict subset of the eligible siblings. Cases where a phase / eligibility comparison '
+             'lies within the stated rounding tolerance are counted (label uncertain_phase) and not judged.',
+        assumptions=['growing_size_percentile P is read as: at or above the ceil(n(100-P)/100)-th largest by usage minus protection',
+                     'kill_by_pressure compares whole percentage points'],
     ),
 }
 
